@@ -205,7 +205,11 @@ func mgStmt(fset *token.FileSet, st ast.Stmt) []string {
 				return []string{fmt.Sprintf(".call %s %s %s %s", qs(lhs), strconv.Quote(fn), qs(exprTexts(fset, c.Args)), qs(innerCalls(fset, c)))}
 			}
 			if len(lhs) == 1 {
-				return []string{fmt.Sprintf(".assign %s %s", strconv.Quote(lhs[0]), strconv.Quote(oneLine(src(fset, s.Rhs[0]))))}
+				rhs := oneLine(src(fset, s.Rhs[0]))
+				if s.Tok != token.ASSIGN && s.Tok != token.DEFINE { // x += e  →  x = x + e
+					rhs = lhs[0] + " " + strings.TrimSuffix(s.Tok.String(), "=") + " " + rhs
+				}
+				return []string{fmt.Sprintf(".assign %s %s", strconv.Quote(lhs[0]), strconv.Quote(rhs))}
 			}
 		}
 		return []string{".other " + strconv.Quote(oneLine(src(fset, s)))}
@@ -377,6 +381,11 @@ var hdTargets = []mgTarget{
 	{"pkg/openid/client/login_callback.go", "Client.authorizationServerIssuerIdentification", "issuerIdentification"},
 	{"pkg/openid/client/login_callback.go", "Client.redeemTokens", "redeemTokens"},
 	{"pkg/openid/oauth2.go", "StateMismatchError", "stateMismatchError"},
+	{"pkg/handler/handler.go", "Standalone.GetCookieOptions", "getCookieOptions"},
+	{"pkg/handler/handler.go", "Standalone.Login", "login"},
+	{"pkg/handler/handler.go", "Standalone.applyLoginRateLimit", "applyLoginRateLimit"},
+	{"pkg/handler/error.go", "Standalone.respondError", "respondError"},
+	{"pkg/handler/error.go", "Standalone.Retry", "retryURI"},
 }
 
 func genManager() {
